@@ -2430,7 +2430,6 @@ fn format_unix_timestamp(unix_secs: u64) -> String {
     let seconds = remaining_secs % SECS_PER_MIN;
 
     // Calculate year, month, day from days since 1970-01-01
-    // Using a simplified algorithm
     let (year, month, day) = days_to_ymd(days_since_epoch);
 
     format!(
@@ -2439,41 +2438,24 @@ fn format_unix_timestamp(unix_secs: u64) -> String {
     )
 }
 
-fn days_to_ymd(days: u64) -> (u32, u32, u32) {
-    // Simplified algorithm - works for dates from 1970 to ~2100
-    let mut remaining_days = days as i64;
-    let mut year = 1970u32;
-
-    loop {
-        let days_in_year = if is_leap_year(year) { 366 } else { 365 };
-        if remaining_days < days_in_year {
-            break;
-        }
-        remaining_days -= days_in_year;
-        year += 1;
-    }
-
-    let days_in_months: [i64; 12] = if is_leap_year(year) {
-        [31, 29, 31, 30, 31, 30, 31, 31, 30, 31, 30, 31]
+fn days_to_ymd(days: u64) -> (u64, u32, u32) {
+    // Civil-from-days (proleptic Gregorian calendar) in constant time, so that
+    // any u64 timestamp is converted promptly and without overflow.
+    let z = days + 719_468; // shift the epoch to 0000-03-01
+    let era = z / 146_097;
+    let day_of_era = z % 146_097; // [0, 146096]
+    let year_of_era =
+        (day_of_era - day_of_era / 1_460 + day_of_era / 36_524 - day_of_era / 146_096) / 365; // [0, 399]
+    let day_of_year = day_of_era - (365 * year_of_era + year_of_era / 4 - year_of_era / 100); // [0, 365]
+    let month_index = (5 * day_of_year + 2) / 153; // [0, 11], March = 0
+    let day = day_of_year - (153 * month_index + 2) / 5 + 1; // [1, 31]
+    let month = if month_index < 10 {
+        month_index + 3
     } else {
-        [31, 28, 31, 30, 31, 30, 31, 31, 30, 31, 30, 31]
-    };
-
-    let mut month = 1u32;
-    for &days_in_month in &days_in_months {
-        if remaining_days < days_in_month {
-            break;
-        }
-        remaining_days -= days_in_month;
-        month += 1;
-    }
-
-    let day = (remaining_days + 1) as u32;
-    (year, month, day)
-}
-
-fn is_leap_year(year: u32) -> bool {
-    (year % 4 == 0 && year % 100 != 0) || (year % 400 == 0)
+        month_index - 9
+    }; // [1, 12]
+    let year = year_of_era + era * 400 + u64::from(month <= 2);
+    (year, month as u32, day as u32)
 }
 
 #[cfg(test)]
